@@ -15,6 +15,8 @@ import OFV.Proofs.C13Sound
 import OFV.Proofs.C13Herm
 import OFV.Proofs.C13Sound2
 import OFV.Proofs.C13RG
+import OFV.Proofs.C13Mel
+import OFV.Proofs.C13Bose
 import Mathlib.Tactic.NormNum
 
 namespace OFV.C13
@@ -231,6 +233,38 @@ theorem spinless_hubbard_hermitian (tol : Rat) (φ : Term → GQ) (a : HubbardAr
     (hφ : ∀ i j, φ [(i, 1), (i, 0), (j, 1), (j, 0)] = φ [(j, 1), (j, 0), (i, 1), (i, 0)]) :
     den (adjF φ) (spinlessFermiHubbard tol a) = (den φ (spinlessFermiHubbard tol a)).conj :=
   spinless_hubbard_hermitian' tol φ a hphs hex ht hu hmu hreg hφ
+
+/-- in the Spec, number operators on different modes commute: `n_i n_j` and `n_j n_i` act identically on every basis
+state (from the CAR lemmas of SpecCAR) -/
+theorem spec_number_operators_commute (i j s : Nat) (hij : i ≠ j) :
+    actFTerm [(i, 1), (i, 0), (j, 1), (j, 0)] s = actFTerm [(j, 1), (j, 0), (i, 1), (i, 0)] s :=
+  actFTerm_nn_comm i j s hij
+
+/-- **hubbard_sound against the Spec** (spinless `fermi_hubbard`; every lattice size, both boundary conditions; real
+hopping amplitude; exact regime): every matrix element `⟨t| H |s⟩` of the Model's output, computed with the Spec action
+`actFTerm`, is the matrix element of `-t Σ_⟨ij⟩ (a†_i a_j + a†_j a_i) + U Σ_⟨ij⟩ n_i n_j - μ Σ_i n_i` over the Spec
+edge set — no hypothesis on the functional is left -/
+theorem spinless_hubbard_sound_spec (tol : Rat) (s t : Nat) (a : HubbardArgs) (hphs : a.phs = false)
+    (hex : ExactSum tol [] ((List.range (a.x * a.y)).flatMap (spinlessPieces tol a)))
+    (ht : a.t.conj = a.t) (hreg : GQ.isSmall tol (-a.t) = true → -a.t = 0) :
+    den (mel s t) (spinlessFermiHubbard tol a) =
+      gsumL ((edges adjNN a.x a.y a.periodic).map fun e =>
+        (-a.t) * mel s t [(e.1, 1), (e.2, 0)] + (-a.t) * mel s t [(e.2, 1), (e.1, 0)] +
+          a.u * mel s t [(e.1, 1), (e.1, 0), (e.2, 1), (e.2, 0)]) +
+      gsumL ((List.range (a.x * a.y)).map fun i => (-a.mu) * mel s t [(i, 1), (i, 0)]) :=
+  spinless_hubbard_sound_mel tol s t a hphs hex ht hreg
+
+/-- **hubbard_sound (`bose_hubbard`)**: every lattice size, both boundary conditions, real hopping amplitude, EVERY term
+functional `φ`: the Model's output denotes `-t Σ_⟨ij⟩ (b†_i b_j + b†_j b_i) + V Σ_⟨ij⟩ n_i n_j` over the Spec edge set
+(keys as BosonOperator stores them, `hopKey` / `nnKey`) plus the on-site `U/2 n(n-1) - μ n` terms of every site -/
+theorem bose_hubbard_sound (tol : Rat) (φ : Term → GQ) (a : HubbardArgs)
+    (hex : ExactSum tol [] ((List.range (a.x * a.y)).flatMap (bosePieces tol a)))
+    (ht : a.t.conj = a.t) (hreg : GQ.isSmall tol (-a.t) = true → -a.t = 0) :
+    den φ (boseHubbard tol a) =
+      gsumL ((edges adjNN a.x a.y a.periodic).map fun e =>
+        ((-a.t) * φ (hopKey e.1 e.2) + (-a.t) * φ (hopKey e.2 e.1)) + a.h * φ (nnKey e.1 e.2)) +
+      gsumL ((List.range (a.x * a.y)).map (boseSiteDen tol φ a)) :=
+  bose_hubbard_sound' tol φ a hex ht hreg
 
 /-- **RichardsonGaudin, documented form** (every `n`, every `g`): in the exact regime (`ExactRG`: every `+` / `sum` step
 of `qubit_operator`) the Model's `RichardsonGaudin(g, n).qubit_operator` denotes
